@@ -64,21 +64,23 @@ Definition init_state (ooo : bool) (init : list fid) (v : view) : run_state clo 
 Definition completes (ev : list event) : list fid :=
   flat_map (fun e => match e with EComplete f => [f] | EPoll => [] end) ev.
 
-(** drive 0 *)
-Definition run_free (ooo : bool) (v : view) (init : list fid) (ev : list event) : list obs :=
+(** drive 0: the schedule, then complete what is left, then at most [n] polls *)
+Definition run_free (n : nat) (ooo : bool) (v : view) (init : list fid) (ev : list event)
+  : list obs :=
   let fuel := poll_fuel v in
   let s := init_state ooo init v in
   let '(s, l1) := run_events _ _ res_clo res_oclo fuel ev s in
   let '(s, l2) := complete_all _ _ (sort_N (futures_of v)) s in
-  let '(_, l3) := drain _ _ res_clo res_oclo fuel poll_bound s in
+  let '(_, l3) := drain _ _ res_clo res_oclo fuel n s in
   l1 ++ l2 ++ l3.
 
-(** drive 1 *)
-Definition run_executor (ooo : bool) (v : view) (init : list fid) (ev : list event) : list obs :=
+(** drive 1: an executor ([n] bounds the polls of one wake-up) *)
+Definition run_executor (n : nat) (ooo : bool) (v : view) (init : list fid) (ev : list event)
+  : list obs :=
   let fuel := poll_fuel v in
   let s := init_state ooo init v in
-  let '(s, l1) := run_task _ _ res_clo res_oclo fuel poll_bound s in
-  let '(_, l2) := run_exec _ _ res_clo res_oclo fuel poll_bound
+  let '(s, l1) := run_task _ _ res_clo res_oclo fuel n s in
+  let '(_, l2) := run_exec _ _ res_clo res_oclo fuel n
                     (completes ev ++ sort_N (futures_of v)) s in
   l1 ++ l2.
 
@@ -112,8 +114,8 @@ Definition run_C07 (c : sexp) : sexp :=
       let init := map as_N (as_list (nth_s 4 c)) in
       let ev := map event_of (as_list (nth_s 5 c)) in
       let l := match as_Z (nth_s 2 c) with
-               | 0%Z => run_free ooo v init ev
-               | _ => run_executor ooo v init ev
+               | 0%Z => run_free poll_bound ooo v init ev
+               | _ => run_executor poll_bound ooo v init ev
                end in
       Lst [ s_reference v;
             (if has_raw v then Lst []
